@@ -116,11 +116,12 @@ type Ladder struct {
 	Depth     int
 	Funcs     [][]string
 	FuncDepth int
-	MinPrefix int // only trie nodes with at least this many steps become units
-	Modes     []int // decodings to explore for this ladder (nil = all)
+	MinPrefix int                // only trie nodes with at least this many steps become units
+	Modes     []int              // decodings to explore for this ladder (nil = all)
 	Keep      func(p *Path) bool // optional filter on the enumerated paths
 	Fixed     []Step             // steps prepended to every path of the ladder (not counted in Depth)
 	CoreDocs  bool               // evaluate only on the node-bounded and wide documents (not the member documents)
+	SmallDocs bool               // evaluate only on the documents of at most 4 nodes
 }
 
 // Unit is a prefix (trie node) of a ladder; it stands for the paths prefix·x (x in Alpha)
